@@ -10,6 +10,7 @@ import Bourse.Lemmas.ListAux
 import Bourse.Lemmas.RefineStep
 import Bourse.Lemmas.QueueOrder
 import Bourse.Lemmas.NoOverflow
+import Bourse.Lemmas.RefGreedy
 
 namespace Bourse.Props.C01
 open Bourse
@@ -211,6 +212,110 @@ example :
 `NoFault` (the model's overflow / missing-entry flags stay clear) is not an extra assumption: by
 `noFault_iff_feasible` it holds exactly when ids refer to existing orders and the per-side resting
 volume and cumulative traded volume stay below `2^32` — the property's own validity conditions. -/
+
+/-! ### The rule in the property's own words: a closed form of what an incoming order executes -/
+
+/-- **C01, first sentence, for every reachable state.** After any valid fault-free history from a new
+book, placing a New order `o` while trading is enabled logs exactly these new trade records, in this
+order: take ALL resting orders of the opposite side that satisfy `o`'s limit (`adm`, in queue order:
+best price first — `queues_sorted_by_price` — earliest queued first within a price —
+`ref_enqueue_position`); hand out `o`'s volume greedily over them (`fs`: each gives the smaller of
+what is still asked for and what it holds); one trade per hand-out, at the resting order's own
+price and side, stamped with the book time, `o` the aggressor. The total executed is
+`min (o's volume) (total admissible resting volume)` and `o` keeps the rest. -/
+theorem placement_executes_greedily (t0 tick : Nat) (trading : Bool) (ht : 0 < tick) (ops : List Op)
+    (hv : ∀ op ∈ ops, ValidOp op) (hnf : NoFault (Book.new t0 tick trading) ops)
+    (id : Nat) (e : Entry)
+    (he : ((Book.new t0 tick trading).run ops).orders[id]? = some e) (hnew : e.order.status = .new)
+    (htr : ((Book.new t0 tick trading).run ops).trading = true)
+    (hnf' : (((Book.new t0 tick trading).run ops).placeOrder id).faulted = false) :
+    let b := (Book.new t0 tick trading).run ops
+    let s := Ref.run (Ref.init t0 tick trading) ops
+    let o := e.order
+    let adm := (s.queue o.side.opp).filter fun j => Ref.admits o.side o.price (Ref.priceOf s.orders j)
+    let fs := Ref.alloc o.vol (adm.map (Ref.volOf s.orders))
+    (b.placeOrder id).trades = b.trades ++ (adm.zip fs).map (fun x => Ref.mkTrade b.t (Ref.orderAt s.orders x.1) o.id x.2) ∧
+    fs.sum = min o.vol (adm.map (Ref.volOf s.orders)).sum ∧
+    ∃ e', (b.placeOrder id).orders[id]? = some e' ∧ e'.order.vol = o.vol - fs.sum := by
+  intro b s o adm fs
+  have hs : abs ((Book.new t0 tick trading).run ops) = Ref.run (Ref.init t0 tick trading) ops :=
+    state_is_reference_state t0 tick trading ht ops hv hnf
+  have := place_greedy (inv_reachable t0 tick trading ht ops hv hnf) id e he hnew htr hnf'
+  rw [hs] at this
+  exact this
+
+/-- **…"(or re-priced)".** The same closed form for a modification that re-prices an Active order (or raises
+its volume): it leaves its queue and executes, as the aggressor with its new limit and volume, the
+greedy allocation over every admissible opposite resting order in queue order. -/
+theorem repricing_executes_greedily (t0 tick : Nat) (trading : Bool) (ht : 0 < tick) (ops : List Op)
+    (hv : ∀ op ∈ ops, ValidOp op) (hnf : NoFault (Book.new t0 tick trading) ops)
+    (id : Nat) (e : Entry) (np nv : Option Nat)
+    (he : ((Book.new t0 tick trading).run ops).orders[id]? = some e) (hact : e.order.status = .active)
+    (hgrid : Book.offGrid ((Book.new t0 tick trading).run ops).tick np = false) (hre : ¬ (np = none ∧ nv = none))
+    (hnotred : (np.isNone && decide (nv.getD e.order.vol < e.order.vol)) = false)
+    (htr : ((Book.new t0 tick trading).run ops).trading = true) (hpvalid : ∀ p, np = some p → p ≤ MAXP)
+    (hnf' : (((Book.new t0 tick trading).run ops).modifyOrder id np nv).faulted = false) :
+    let b := (Book.new t0 tick trading).run ops
+    let s := Ref.run (Ref.init t0 tick trading) ops
+    let o := e.order
+    let adm := (s.queue o.side.opp).filter fun j => Ref.admits o.side (np.getD o.price) (Ref.priceOf s.orders j)
+    let fs := Ref.alloc (nv.getD o.vol) (adm.map (Ref.volOf s.orders))
+    (b.modifyOrder id np nv).trades = b.trades ++ (adm.zip fs).map (fun x => Ref.mkTrade b.t (Ref.orderAt s.orders x.1) o.id x.2) ∧
+    fs.sum = min (nv.getD o.vol) (adm.map (Ref.volOf s.orders)).sum := by
+  intro b s o adm fs
+  have hs : abs ((Book.new t0 tick trading).run ops) = Ref.run (Ref.init t0 tick trading) ops :=
+    state_is_reference_state t0 tick trading ht ops hv hnf
+  have := modify_greedy (inv_reachable t0 tick trading ht ops hv hnf) id e np nv he hact hgrid hre hnotred htr hpvalid hnf'
+  rw [hs] at this
+  exact this
+
+/-- The hand-outs themselves: never more than the resting order holds, every resting order before
+the last one touched is emptied (so only the last fill can be partial), and together exactly
+`min V (Σ volumes)`. -/
+theorem greedy_allocation_shape (V : Nat) (vs : List Nat) :
+    (Ref.alloc V vs).sum = min V vs.sum ∧ (Ref.alloc V vs).length ≤ vs.length ∧
+    (∀ i (h : i < (Ref.alloc V vs).length) (h' : i < vs.length), (Ref.alloc V vs)[i] ≤ vs[i]) ∧
+    (∀ i (h : i + 1 < (Ref.alloc V vs).length) (h' : i < vs.length), (Ref.alloc V vs)[i]'(by omega) = vs[i]) :=
+  ⟨Ref.alloc_sum V vs, Ref.alloc_length_le V vs, Ref.alloc_le V vs, Ref.alloc_full_before_last V vs⟩
+
+/-- **"…continuing until the incoming order is exhausted or no resting order satisfies its limit."**
+When the reference loop returns, the aggressor has no volume left, or the opposite queue is empty,
+or the order now at its head does not satisfy the aggressor's limit. -/
+theorem ref_match_stops_for_the_stated_reasons (t : Nat) (q : List Nat) (st : Ref.MatchSt)
+    (hq : ∀ j ∈ q, j < st.orders.length) :
+    (Ref.matchQ t q st).2.agg.vol = 0 ∨ (Ref.matchQ t q st).1 = [] ∨
+    ∃ j, (Ref.matchQ t q st).1.head? = some j ∧
+      Ref.admits (Ref.matchQ t q st).2.agg.side (Ref.matchQ t q st).2.agg.price
+        (Ref.priceOf (Ref.matchQ t q st).2.orders j) = false :=
+  Ref.matchQ_stops t q st hq
+
+/-- Non-vacuity, and the closed form evaluated: three asks (4 @ 10, then 5 @ 11 queued before another
+5 @ 11); a buy of 12 with limit 11 is admitted by all three, is handed 4, 5 and 3, and the trades are
+exactly those. A buy with limit 10 is admitted by one order only. -/
+example :
+    let ops : List Op := [.cap .ask 5 1 (some 11), .time 1, .cap .ask 5 2 (some 11), .time 2, .cap .ask 4 3 (some 10),
+      .time 3, .create .bid 12 4 (some 11), .create .bid 12 4 (some 10)]
+    let s := Ref.run (Ref.init 0 1 true) ops
+    (∀ op ∈ ops, ValidOp op) ∧ NoFault (Book.new 0 1 true) ops ∧
+    ((s.queue .ask).filter fun j => Ref.admits .bid 11 (Ref.priceOf s.orders j)) = [2, 0, 1] ∧
+    Ref.alloc 12 [4, 5, 5] = [4, 5, 3] ∧
+    (((Book.new 0 1 true).run ops).placeOrder 3).trades =
+      [{ t := 3, side := .ask, price := 10, vol := 4, active := 3, passive := 2 },
+       { t := 3, side := .ask, price := 11, vol := 5, active := 3, passive := 0 },
+       { t := 3, side := .ask, price := 11, vol := 3, active := 3, passive := 1 }] ∧
+    ((s.queue .ask).filter fun j => Ref.admits .bid 10 (Ref.priceOf s.orders j)) = [2] ∧
+    (((Book.new 0 1 true).run ops).placeOrder 4).trades =
+      [{ t := 3, side := .ask, price := 10, vol := 4, active := 4, passive := 2 }] ∧
+    -- re-pricing the ask 5 @ 11 (id 0) down to 9 with a bid of 12 @ 10 resting: it executes against that bid
+    ((((Book.new 0 1 true).run ops).placeOrder 4).modifyOrder 0 (some 9) none).trades.drop 1 =
+      [{ t := 3, side := .bid, price := 10, vol := 5, active := 0, passive := 4 }] := by
+  refine ⟨?_, ?_, by decide, by decide, by decide, by decide, by decide, by decide⟩
+  · intro op hop
+    simp only [List.mem_cons, List.not_mem_nil, or_false] at hop
+    rcases hop with h | h | h | h | h | h | h | h <;> subst h <;> simp [ValidOp, MAXP]
+  · simp only [NoFault, and_true]
+    decide
+
 
 /-- **Valid histories never fault, and only they don't.** From a new book with a positive tick, for
 operations with volumes ≥ 1 and prices within 32 bits: no overflow, underflow, missing level,
